@@ -171,8 +171,9 @@ func (c *ExpressionParser) matchTokensWithTypes(types ...int) bool {
 	matches := false
 
 	for i, typ := range types {
-		if c.currentTokenIndex+i < len(c.initialTokens) {
-			matches = c.initialTokens[c.currentTokenIndex+i].Type() == typ
+		if c.currentTokenIndex+i < len(c.initialTokens) &&
+			c.initialTokens[c.currentTokenIndex+i].Type() == typ {
+			matches = true
 		} else {
 			matches = false
 			break
